@@ -514,6 +514,7 @@ func TestCheck(t *testing.T) {
 	defer r.Done()
 	if os.Getenv("VERIF_PART") == "webseed-stop" {
 		webseedStop(t, r)
+		busyQueueStop(t, r, 1000)
 		r.Finish()
 		return
 	}
